@@ -511,6 +511,59 @@ fn observed_queries_job(ctx: &Ctx, job: usize, iters: u64) -> Stats {
     st
 }
 
+/// Elements written as plain integer LITERALS (`s.insert(5)`), as every example does: on sets of
+/// 3, 33, 40 and 64 bits. Whatever type the compiler picks for the literal, 5 is the element 5.
+fn literal_elements(st: &mut Stats) {
+    for bits in [3usize, 31, 32, 33, 40, 63, 64] {
+        st.evals += 1;
+        let case = json!({"kind": "literals", "bits": bits});
+        util::budget(50_000_000, 1000);
+        let r = guarded(move || -> Result<(), String> {
+            let env = Rc::new(BDDEnv::new());
+            let a = BDDSet::with_env(bits, &env);
+            let b = BDDSet::with_env(bits, &env);
+            a.insert(5);
+            a.insert(2);
+            b.insert(5);
+            b.insert(7);
+            let single = BDDSet::from_element(6, bits, &env);
+            a.union(&single);
+            // a = {2, 5, 6}, b = {5, 7}
+            for (what, got, want) in [
+                ("a.contains(5)", a.contains(5), true),
+                ("a.contains(5usize)", a.contains(5usize), true),
+                ("a.contains(6)", a.contains(6), true),
+                ("a.contains(7)", a.contains(7), false),
+                ("b.contains(7usize)", b.contains(7usize), true),
+                ("b.contains(2)", b.contains(2), false),
+            ] {
+                if got != want {
+                    return Err(format!("{} = {} (a = {{2, 5, 6}}, b = {{5, 7}}, elements inserted as integer literals)", what, got));
+                }
+            }
+            if bits > 32 {
+                let high = 5usize + (5usize << 32);
+                if a.contains(high) {
+                    return Err(format!("a.contains({:#x}) = true although only 2, 5 and 6 were inserted", high));
+                }
+            }
+            a.complement(&b);
+            if a.contains(5) || !a.contains(2) || !a.contains(6) {
+                return Err("after a.complement(b): a should be {2, 6}".into());
+            }
+            Ok(())
+        });
+        match r {
+            Ok(Ok(())) => {
+                st.bump("sets_with_literal_elements");
+                st.nt.insert(mix(0x19_11, bits as u64));
+            }
+            Ok(Err(m)) => st.violate("c19.membership", "C19:literals:wrong-membership".into(), format!("b = {}: {}", bits, m), case),
+            Err(c) => st.violate("c19.panic", format!("C19:literals:{}", c.signature()), format!("b = {}: {:?}", bits, c), case),
+        }
+    }
+}
+
 /// VERY LONG histories on one set: a query, then exactly N modifications (N around 2^8 and 2^16 and
 /// their multiples — where a narrow counter of modifications would wrap), then the same query
 /// first and all the others after it. The modifications are chosen so that the answer must have
@@ -848,6 +901,7 @@ pub fn run(ctx: &Ctx) -> (Stats, Spec) {
     st.merge(exhaustive(2));
     st.exhaustive.push("b = 0 (one element, the integer 0), b = 1 and b = 2: every reachable pair of reference states (16 / 256 pairs) x every next operation (insert, union/intersect/complement in all four operand combinations incl. self-aliased, empty, universe, contains for every element)".into());
     st.merge(exhaustive(3));
+    literal_elements(&mut st);
     st.exhaustive.push("b = 3: all 65 536 reference state pairs x every next operation".into());
     let iters = ctx.tier.pick(300u64, 30_000u64);
     let parts = util::par_jobs(16, |job| {
